@@ -83,6 +83,8 @@ Check (C06_unmapped_file_index_refuted :
     mbuf (sw_map st) = s ",ADASA,CAAC" /\
     decode_mappings (mbuf (sw_map st)) = Some gs /\
     map g_orig gs = [Some ((-1)%Z, 0%Z, 9%Z, Some 0%Z); Some ((-1)%Z, 0%Z, 10%Z, None)]).
+Check (C06_orig_column_units_refuted :
+  exists tok, In tok (token_starts astral_line) /\ t_line tok = 0%N /\ t_colc tok = 11%N /\ t_col16 tok = 12%N).
 
 Print Assumptions C06_alphabet_decodes.
 Print Assumptions C06_alphabet_injective.
@@ -103,3 +105,4 @@ Print Assumptions C06_sources_in_range_partial.
 Print Assumptions C06_sources_in_range_full_refuted.
 Print Assumptions C06_imported_fragment_source_index_refuted.
 Print Assumptions C06_unmapped_file_index_refuted.
+Print Assumptions C06_orig_column_units_refuted.
